@@ -217,9 +217,10 @@ def solve_all(lp, limit=2000000):
 
 
 class Backend(object):
-    def __init__(self, mode='eb', choices=(), keep_sets=True, hook=None):
+    def __init__(self, mode='eb', choices=(), keep_sets=True, hook=None, salt=0):
         self.mode = mode
         self.choices = list(choices)
+        self.salt = int(salt or 0)
         self.keep_sets = keep_sets
         self.records = []
         self.hook = hook         # hook(backend, lp, record) -> None, called after each solve
@@ -245,9 +246,10 @@ class Backend(object):
 
     def _choose(self, n):
         k = len(self.records)
-        if not self.choices:
-            return 0
-        return self.choices[k % len(self.choices)] % n
+        base = self.choices[k % len(self.choices)] if self.choices else 0
+        # salt is drawn first in every case (uniformly); it keeps the selection spread
+        # over the optimal set even when the late `choices` draws are minimal
+        return (base + self.salt * (k + 1)) % n
 
     def _solve(self, solver_self, lp, **kwargs):
         rec = SolveRecord()
